@@ -340,12 +340,171 @@ theorem evalBin_signed {op : BinOp} (hl : op ≠ .land) (hr : op ≠ .lor) {x y 
           have : x * 2 ^ y.toNat ≤ x * 1 := Int.mul_le_mul_of_nonpos_left (by omega) (by omega)
           omega
         omega
-  all_goals first
-    | (injection h with h; subst h; exact ⟨rfl, signedOk_ofBool _, by rw [ofBool_v]⟩)
-    | (rw [band_signed hx hy] at h; injection h with h; subst h; exact ⟨rfl, signedOk_PyAnd hx hy, rfl⟩)
-    | (rw [bxor_signed hx hy] at h; injection h with h; subst h; exact ⟨rfl, signedOk_PyXor hx hy, rfl⟩)
-    | (rw [bor_signed hx hy] at h; injection h with h; subst h; exact ⟨rfl, signedOk_PyOr hx hy, rfl⟩)
-    | exact absurd rfl hl
-    | exact absurd rfl hr
+  · injection h with h; subst h; exact ⟨rfl, signedOk_ofBool _, by rw [ofBool_v]⟩
+  · injection h with h; subst h; exact ⟨rfl, signedOk_ofBool _, by rw [ofBool_v]⟩
+  · injection h with h; subst h; exact ⟨rfl, signedOk_ofBool _, by rw [ofBool_v]⟩
+  · injection h with h; subst h; exact ⟨rfl, signedOk_ofBool _, by rw [ofBool_v]⟩
+  · injection h with h; subst h; exact ⟨rfl, signedOk_ofBool _, by rw [ofBool_v]⟩
+  · injection h with h; subst h; exact ⟨rfl, signedOk_ofBool _, by rw [ofBool_v]⟩
+  · rw [band_signed hx hy] at h; injection h with h; subst h; exact ⟨rfl, signedOk_PyAnd hx hy, rfl⟩
+  · rw [bxor_signed hx hy] at h; injection h with h; subst h; exact ⟨rfl, signedOk_PyXor hx hy, rfl⟩
+  · rw [bor_signed hx hy] at h; injection h with h; subst h; exact ⟨rfl, signedOk_PyOr hx hy, rfl⟩
+
+/-- main evaluation lemma: on a tree without unsigned constants, a value prescribed by C is an `intmax_t`
+    value and the model of `_eval_tree` returns it -/
+theorem eval_signed : ∀ (t : Tree), SignedOnly t → ∀ r : Val, Spec.PPInt.eval t = some r →
+    r.u = false ∧ signedOk r.v = true ∧ evalTree (ofTree t) = .ok r.v := by
+  intro t
+  induction t with
+  | num v s d =>
+    intro h r hr
+    obtain ⟨hs, hv⟩ := h
+    subst hs
+    simp only [Spec.PPInt.eval, evalNum, Bool.false_eq_true, if_false, hv, if_true, Option.some.injEq] at hr
+    subst hr
+    refine ⟨rfl, ?_, rfl⟩
+    show signedOk (v : Int) = true
+    rw [signedOk_iff]
+    have : intMax = 9223372036854775807 := by decide
+    rw [this] at hv
+    constructor <;> omega
+  | un op a ih =>
+    intro h r hr
+    simp only [Spec.PPInt.eval] at hr
+    cases ha : Spec.PPInt.eval a with
+    | none => simp [ha] at hr
+    | some x =>
+      simp only [ha] at hr
+      obtain ⟨hu, hok, hev⟩ := ih h x ha
+      obtain ⟨xv, xu⟩ := x
+      simp only at hu hok hev
+      subst hu
+      cases op
+      · -- neg
+        simp only [evalUn] at hr
+        obtain ⟨rfl, hr'⟩ := arith_signed hr
+        exact ⟨rfl, hr', by simp [ofTree, evalTree, unSym, Spec.PPInt.UnOp.sym, hev]⟩
+      · -- bnot
+        simp only [evalUn, bnot_signed hok, Option.some.injEq] at hr
+        subst hr
+        refine ⟨rfl, ?_, by simp [ofTree, evalTree, unSym, Spec.PPInt.UnOp.sym, hev]⟩
+        have := (signedOk_iff xv).mp hok
+        show signedOk (-xv - 1) = true
+        rw [signedOk_iff]; constructor <;> omega
+      · -- lnot
+        simp only [evalUn, Option.some.injEq] at hr
+        subst hr
+        exact ⟨rfl, signedOk_ofBool _, by simp [ofTree, evalTree, unSym, Spec.PPInt.UnOp.sym, hev, ofBool_v]⟩
+      · -- plus
+        simp only [evalUn, Option.some.injEq] at hr
+        subst hr
+        exact ⟨rfl, hok, by simpa [ofTree] using hev⟩
+  | bin op a b iha ihb =>
+    intro h r hr
+    by_cases hl : op = .land
+    · subst hl
+      simp only [Spec.PPInt.eval] at hr
+      cases hub : isUnsigned b with
+      | none => simp [hub] at hr
+      | some ub =>
+        cases ha : Spec.PPInt.eval a with
+        | none => simp [hub, ha] at hr
+        | some x =>
+          simp only [hub, ha] at hr
+          obtain ⟨_, _, hev⟩ := iha h.1 x ha
+          split at hr
+          · rename_i h0
+            injection hr with hr; subst hr
+            exact ⟨rfl, signedOk_ofBool _, by simp [ofTree, evalTree, binSym, Spec.PPInt.BinOp.sym, hev, h0]; rfl⟩
+          · rename_i h0
+            cases hb : Spec.PPInt.eval b with
+            | none => simp [hb] at hr
+            | some y =>
+              simp only [hb, Option.map_some, Option.some.injEq] at hr
+              subst hr
+              obtain ⟨_, _, hevb⟩ := ihb h.2 y hb
+              exact ⟨rfl, signedOk_ofBool _,
+                by simp [ofTree, evalTree, binSym, Spec.PPInt.BinOp.sym, hev, hevb, h0, ofBool_v]⟩
+    · by_cases hr' : op = .lor
+      · subst hr'
+        simp only [Spec.PPInt.eval] at hr
+        cases hub : isUnsigned b with
+        | none => simp [hub] at hr
+        | some ub =>
+          cases ha : Spec.PPInt.eval a with
+          | none => simp [hub, ha] at hr
+          | some x =>
+            simp only [hub, ha] at hr
+            obtain ⟨_, _, hev⟩ := iha h.1 x ha
+            split at hr
+            · rename_i h0
+              injection hr with hr; subst hr
+              exact ⟨rfl, signedOk_ofBool _, by simp [ofTree, evalTree, binSym, Spec.PPInt.BinOp.sym, hev, h0]; rfl⟩
+            · rename_i h0
+              cases hb : Spec.PPInt.eval b with
+              | none => simp [hb] at hr
+              | some y =>
+                simp only [hb, Option.map_some, Option.some.injEq] at hr
+                subst hr
+                obtain ⟨_, _, hevb⟩ := ihb h.2 y hb
+                have h0' : x.v = 0 := by simpa using h0
+                exact ⟨rfl, signedOk_ofBool _,
+                  by simp [ofTree, evalTree, binSym, Spec.PPInt.BinOp.sym, hev, hevb, h0', ofBool_v]⟩
+      · have hev : Spec.PPInt.eval (.bin op a b) =
+            match Spec.PPInt.eval a, Spec.PPInt.eval b with
+            | some x, some y => evalBin op x y
+            | _, _ => none := by
+          cases op <;> first | exact absurd rfl hl | exact absurd rfl hr' | rfl
+        rw [hev] at hr
+        cases ha : Spec.PPInt.eval a with
+        | none => simp [ha] at hr
+        | some x =>
+          cases hb : Spec.PPInt.eval b with
+          | none => simp [ha, hb] at hr
+          | some y =>
+            simp only [ha, hb] at hr
+            obtain ⟨hxu, hxok, hxev⟩ := iha h.1 x ha
+            obtain ⟨hyu, hyok, hyev⟩ := ihb h.2 y hb
+            obtain ⟨xv, xu⟩ := x
+            obtain ⟨yv, yu⟩ := y
+            simp only at hxu hyu hxok hyok hxev hyev
+            subst hxu hyu
+            have := evalBin_signed hl hr' hxok hyok hr hxev hyev
+            simpa [ofTree] using this
+  | cond c a b ihc iha ihb =>
+    intro h r hr
+    simp only [Spec.PPInt.eval] at hr
+    cases hua : isUnsigned a with
+    | none => simp [hua] at hr
+    | some ua =>
+      cases hub : isUnsigned b with
+      | none => simp [hua, hub] at hr
+      | some ub =>
+        cases hc : Spec.PPInt.eval c with
+        | none => simp [hua, hub, hc] at hr
+        | some x =>
+          have ea := isUnsigned_signedOnly a h.2.1 ua hua
+          have eb := isUnsigned_signedOnly b h.2.2 ub hub
+          subst ea eb
+          simp only [hua, hub, hc, Bool.or_self, Bool.false_eq_true, if_false] at hr
+          obtain ⟨_, _, hevc⟩ := ihc h.1 x hc
+          split at hr
+          · rename_i h0
+            cases ha : Spec.PPInt.eval a with
+            | none => simp [ha] at hr
+            | some y =>
+              simp only [ha, Option.map_some, Option.some.injEq] at hr
+              subst hr
+              obtain ⟨h1, h2, h3⟩ := iha h.2.1 y ha
+              exact ⟨h1, h2, by simp [ofTree, evalTree, hevc, h0, h3]⟩
+          · rename_i h0
+            cases hb : Spec.PPInt.eval b with
+            | none => simp [hb] at hr
+            | some y =>
+              simp only [hb, Option.map_some, Option.some.injEq] at hr
+              subst hr
+              obtain ⟨h1, h2, h3⟩ := ihb h.2.2 y hb
+              have h0' : x.v = 0 := by simpa using h0
+              exact ⟨h1, h2, by simp [ofTree, evalTree, hevc, h0', h3]⟩
 
 end Proofs.PPExpr
